@@ -562,16 +562,19 @@ pub fn gen(r: &mut Rng, thorough: bool) -> Vec<(String, String)> {
             o.v.push(("tet_dist".into(), format!("{} {} {}", sargs, d3::hp(&p), if r.bool() { "1" } else { "0" })));
             o.v.push(("tet_feat".into(), format!("{} {}", sargs, d3::hp(&p))));
             // default methods (fu5): bounded and posed forms; the posed point is the image of the same local point
-            let so = if r.bool() { "1" } else { "0" };
+            // (a forked generator: the stream of the older families is unchanged)
+            let mut rt = Rng(r.0 ^ 0xA5A5_0005_7E70_0001);
+            let rt = &mut rt;
+            let so = if rt.bool() { "1" } else { "0" };
             let ext = (ab.norm()).max(ac.norm()).max(ad.norm());
-            let md = if lat { *r.pick(&[0.0, 0.25, 0.5, 1.0, 2.0]) * ext } else { r.uniform(0.0, 2.0 * ext) };
+            let md = if lat { *rt.pick(&[0.0, 0.25, 0.5, 1.0, 2.0]) * ext } else { rt.uniform(0.0, 2.0 * ext) };
             o.v.push(("tet_proj".into(), format!("{} {} {}", sargs, d3::hp(&p), so)));
             o.v.push(("tet_maxd".into(), format!("{} {} {} {}", sargs, d3::hp(&p), so, hx(md))));
-            let m = d3::gen_iso(r, lat, 100.0);
+            let m = d3::gen_iso(rt, lat, 100.0);
             let w = m * p;
             let mh = d3::hiso(&m);
             o.v.push(("tet_wproj".into(), format!("{} {} {} {}", sargs, mh, d3::hp(&w), so)));
-            o.v.push(("tet_wdist".into(), format!("{} {} {} {}", sargs, mh, d3::hp(&w), if r.bool() { "1" } else { "0" })));
+            o.v.push(("tet_wdist".into(), format!("{} {} {} {}", sargs, mh, d3::hp(&w), if rt.bool() { "1" } else { "0" })));
             o.v.push(("tet_wcont".into(), format!("{} {} {}", sargs, mh, d3::hp(&w))));
         }
     }
@@ -583,7 +586,8 @@ pub fn gen(r: &mut Rng, thorough: bool) -> Vec<(String, String)> {
     // ---- structured Voronoi sweep (tetrahedron, fu5): 3 lattice + 3 random tetrahedra (quick), 30 + 30 (thorough)
     {
         let mut fam = std::collections::BTreeMap::new();
-        for i in 0..(if thorough { 60 } else { 6 }) { tet_sweep(&mut o, r, i % 2 == 0, &mut fam); }
+        let mut rs = Rng(r.0 ^ 0xA5A5_0005_7E70_0002);       // forked: the stream of the older families is unchanged
+        for i in 0..(if thorough { 60 } else { 6 }) { tet_sweep(&mut o, &mut rs, i % 2 == 0, &mut fam); }
         if std::env::var("VERIF_FAMILIES").is_ok() { for (k, c) in &fam { eprintln!("C05 family {} {}", k, c); } }
     }
     c05m::gen(r, thorough, &mut o.v);
